@@ -40,6 +40,19 @@ from numba_scfg.core.datastructures.block_names import (
 )
 
 
+def _rename_in_exiting(block: BasicBlock, old: str, new: str) -> None:
+    """Rename a jump target in the (nested) exiting blocks of a region."""
+    while isinstance(block, RegionBlock):
+        assert block.subregion is not None and block.exiting is not None
+        sub = block.subregion
+        inner = sub.graph.pop(block.exiting)
+        inner = inner.replace_jump_targets(
+            tuple(new if t == old else t for t in inner._jump_targets)
+        )
+        sub.add_block(inner)
+        block = inner
+
+
 @dataclass(frozen=True)
 class NameGenerator:
     """Unique Name Generator.
@@ -544,6 +557,7 @@ class SCFG(Sized):
             if successors:
                 for s in successors:
                     if s in jt:
+                        _rename_in_exiting(block, s, new_name)
                         if new_name not in jt:
                             jt[jt.index(s)] = new_name
                         else:
@@ -656,6 +670,7 @@ class SCFG(Sized):
                 branch_variable_value += 1
                 # replace previous successor with synth_assign
                 jt[jt.index(s)] = synth_assign
+                _rename_in_exiting(block, s, synth_assign)
             # finally, replace the jump_targets
             self.add_block(
                 self.graph.pop(name).replace_jump_targets(
